@@ -451,7 +451,7 @@ def build_xdrvpp(B, variant, cfg, G):
     odir = os.path.join(B.dir, "c18obj_" + variant)
     os.makedirs(odir, exist_ok=True)
     common = V["cflags"] + B.defs + B.inc + ["-I" + HARNESS, "-I" + os.path.join(_build.REPO, "cplusplus")]
-    dflag = ["-DXDRV_TRACK"] if variant == "plain" else ["-DXDRV_SAN"] if variant == "asan" else []
+    dflag = ["-DXDRV_TRACK"] if variant == "plain" else ["-DXDRV_SAN"] if variant == "asan" else ["-DXDRV_TRACK", "-DXDRV_FA"] if variant == "fa" else []
     deps = [os.path.join(HARNESS, "opspp.h"), os.path.join(HARNESS, "xdrv.h"), header_path()]
     jobs, objs = [], []
     xc = os.path.join(HARNESS, "xdrv.c")
